@@ -119,6 +119,43 @@ func runCase(cs poolsim.Case, coqWanted bool) (coqOut string, failOut *failure, 
 			report("c05-pool-invalid", fmt.Sprintf("after %s the reported pool (%d v1, %d v2) is not valid in order at position %d: %v", what, len(v1), len(v2), pos, err))
 			return
 		}
+		// every reported transaction is retrievable by its id, from the lookup of its kind only
+		for _, x := range v1 {
+			id := x.ID()
+			func() {
+				defer func() {
+					if p := recover(); p != nil {
+						report("c05-lookup-panic", fmt.Sprint("a lookup by the id of a reported v1 transaction panicked: ", p))
+					}
+				}()
+				if t, ok := r.CM.PoolTransaction(id); !ok || t.ID() != id {
+					report("c05-lookup-missed", fmt.Sprintf("after %s PoolTransaction(<id of reported v1 transaction %x>) reports found=%v (pool: %d v1, %d v2)", what, id[:4], ok, len(v1), len(v2)))
+				}
+				if _, ok := r.CM.V2PoolTransaction(id); ok {
+					report("c05-lookup-wrong-transaction", "V2PoolTransaction(<v1 id>) reports a transaction")
+				}
+			}()
+		}
+		for _, x := range v2 {
+			id := x.ID()
+			func() {
+				defer func() {
+					if p := recover(); p != nil {
+						report("c05-lookup-panic", fmt.Sprint("a lookup by the id of a reported v2 transaction panicked: ", p))
+					}
+				}()
+				if t, ok := r.CM.V2PoolTransaction(id); !ok || t.ID() != id {
+					report("c05-lookup-missed", fmt.Sprintf("after %s V2PoolTransaction(<id of reported v2 transaction %x>) reports found=%v (pool: %d v1, %d v2)", what, id[:4], ok, len(v1), len(v2)))
+				}
+				if _, ok := r.CM.PoolTransaction(id); ok {
+					report("c05-lookup-wrong-transaction", "PoolTransaction(<v2 id>) reports a transaction")
+				}
+			}()
+		}
+		st["lookups-of-reported-transactions"] += len(v1) + len(v2)
+		if fail != nil {
+			return
+		}
 		// the manager's tip state is the generator's
 		if string(mgrsim.EncState(r.CM.TipState())) != string(mgrsim.EncState(tip.FullState)) {
 			report("c05-tip-state-differs", "TipState differs from the linear replay of the best chain")
@@ -446,6 +483,19 @@ func corpus(seed uint64) []poolsim.Case {
 	c.Seed += 103
 	c.Plan = []poolsim.Step{all(4), {Kind: "submit", Flavor: "filler-v1", Seed: 26 + seed}, {Kind: "submit", Flavor: "heavy-chain-v2", Seed: 27 + seed}, {Kind: "mine"}, {Kind: "mine"}}
 	out = append(out, c)
+	// pooled v2 resolutions (storage proof, renewal, expiration) and revisions that stay in the pool while
+	// unrelated blocks (formations and transfers only) grow the accumulator underneath them
+	for k := uint64(0); k < 3; k++ {
+		c = poolsim.Case{Seed: seed*977 + 2000 + k, Regime: 2, Opts: chaingen.GenOpts{Blocks: 12, Branchiness: 0, TxPerBlock: 3, Kinds: []string{"v2-form", "v2-form", "v2-transfer", "v2-siafund"}}}
+		c.Plan = []poolsim.Step{all(3)}
+		for n := 4; n <= 12; n++ {
+			for _, kind := range []string{"v2-proof", "v2-renew", "v2-expire", "v2-revise"} {
+				c.Plan = append(c.Plan, poolsim.Step{Kind: "submit", Flavor: "builder:" + kind, Seed: uint64(n)*17 + k})
+			}
+			c.Plan = append(c.Plan, poolsim.Step{Kind: "chain", Op: mgrsim.Op{Kind: "add", Nodes: []int{n}}})
+		}
+		out = append(out, c)
+	}
 	// a well filled pool that is not full (8 chains x 5 x ~450 kB = 18e6 of 20e6), then a refused set
 	// whose new members are heavy: nothing may leave the pool
 	c = lin(2, 3)
